@@ -35,8 +35,10 @@ def dispatch (line : String) : String :=
     | "inst" => cmdInst a
     | "sat" => cmdSat a
     | "jr" => cmdJR a
+    | "cohesive" => cmdCohesive a
     | "price" => cmdPrice a
     | "round2" => cmdRound2 a
+    | "pricerelax" => cmdPriceRelax a
     | "multi" => cmdMulti a
     | "ops" => cmdOps a
     | "effects" => cmdEffects a
